@@ -1,9 +1,43 @@
 import ZenonVerif.Model.Ledger
+import ZenonVerif.Lemmas.LedgerReach
+import ZenonVerif.Lemmas.LedgerDemo
 /-
-C01 — token supply conservation. Property theorems only.
+C01 — token supply conservation. Property theorems only (helpers are in Lemmas/Ledger*.lean).
+
+Vocabulary (Lemmas/LedgerStep.lean, LedgerInv.lean, LedgerCons.lean):
+  `Ev` / `step`      the three accepted block kinds: user send, user receive, contract receive with its observed outcome
+  `Fresh s e`        the hashes of the sends that `e` adds are pairwise distinct and not hashes of confirmed sends
+  `Admissible s e`   `Fresh` + the send-time validation of token calls the model does not repeat (`CallOk`: issue has total ≤ max)
+  `Reach s0 s`       `s` is reached from `s0` by accepted admissible events
+  `WF s`             one balance entry per (address, token); distinct send hashes; one storage entry per token; every marker
+                     refers to a confirmed send; markers distinct; under the gate a marker belongs to the send's addressee;
+                     zero-token sends carry no amount
+  `sumBal s t`       Σ of all balance entries of token t        `inflightSum s t`  Σ amounts of token t over `s.unreceived`
+  `supplyOf s t`     supply recorded in the token contract's storage, 0 for an unknown token
+  `Conserved s`      ∀ t ≠ zeroTok, supplyOf s t = sumBal s t + inflightSum s t
 -/
 namespace ZV.C01
 open ZV.Ledger
+
+/-! ## T1 — conservation -/
+
+/-- T1, one step: above the receiver-enforcement height every accepted block with fresh hashes preserves
+    well-formedness and `supply = Σ balances + Σ unreceived sends` for every token. For `issue` the new token had no
+    storage entry, hence (by `Conserved` before) supply 0 = no balances and nothing in flight. -/
+theorem conservation_step (s s' : State) (e : Ev) (hg : s.gate = true) (hw : WF s) (hc : Conserved s)
+    (hf : Fresh s e) (hok : step s e = .ok s') : WF s' ∧ Conserved s' :=
+  ⟨step_wf hw hf hok, step_conserved hg hw hc hf hok⟩
+
+/-- T1: conservation holds in every state reachable from a well-formed conserved state above the enforcement height. -/
+theorem conservation (s0 s : State) (hg : s0.gate = true) (hw : WF s0) (hc : Conserved s0) (hr : Reach s0 s) :
+    WF s ∧ Conserved s :=
+  hr.conserved hg hw hc
+
+/-- T1 from the empty ledger (no balances, no tokens): everything that exists was issued through the token contract. -/
+theorem conservation_from_empty (s : State) (hr : Reach (State.init true) s) : Conserved s :=
+  (hr.conserved rfl (wf_init true) (inv_init true).conserved).2
+
+/-! ## T2 — no balance goes negative -/
 
 /-- T2′ (send side): an accepted send never spends more than the account holds — the debit cannot underflow. -/
 theorem send_within_balance (s s' : State) (src dst : Addr) (tok : Tok) (amt : Nat) (h : Hash) (call : TokCall)
@@ -28,6 +62,72 @@ theorem zero_token_send_is_empty (s s' : State) (src dst : Addr) (amt : Nat) (h 
     simp at h1
     omega
 
+/-- T2′: in an accepted step no truncated subtraction truncates. `NoUnderflow s e` lists the debits of the step with
+    the balance each is applied to: the user send's amount ≤ the sender's balance; for a contract receive every
+    descendant `d` of the list is debited in the intermediate state `sm` reached after its predecessors with
+    `d.amt ≤ balance sm c d.tok` (`GuardedDescs`), and in the token-applied shape the burn is debited after the credit
+    and the mint with `burn ≤ balance` (the `getBal … < out.burn → error` guard). Balances are `Nat`, so non-negativity
+    itself is by typing. -/
+theorem no_underflow (s s' : State) (e : Ev) (hok : step s e = .ok s') : NoUnderflow s e :=
+  step_noUnderflow hok
+
+/-- T2′ (supply side): the amount of a receivable send is within the recorded supply of its token; in particular
+    `supply − amount` in Burn is exact. -/
+theorem burn_within_supply (s : State) (c : Addr) (h : Hash) (snd : Send) (i : TokInfo)
+    (hg : s.gate = true) (hw : WF s) (hc : Conserved s) (hchk : checkFrom s c h = .ok snd)
+    (hi : getTok s.toks snd.tok = some i) : snd.amt ≤ i.supply := by
+  have := receivable_le_supply hg hw hc hchk
+  simpa [supplyOf, supplyOfL, hi] using this
+
+/-! ## T3 — supply ≤ max supply -/
+
+/-- T3, one step. `CallsOk s` says every confirmed send's decoded token call passed the send-time validation that the
+    model does not repeat at receive time: for `issue total max …`, `total ≤ max` (Go: `checkToken` in
+    `IssueMethod.ValidateSendBlock`, which `ReceiveBlock` re-runs). Mint is guarded by `max − supply ≥ amount`, burn
+    lowers `max` along with `supply` for non-mintable tokens, update sets `max := supply` when mintable is switched off. -/
+theorem supply_le_max_step (s s' : State) (e : Ev) (hs : SupplyLeMax s) (hcalls : CallsOk s)
+    (hok : step s e = .ok s') : SupplyLeMax s' :=
+  step_supplyLeMax hs hcalls hok
+
+/-- T3 over reachable states (admissible events carry `total ≤ max` for every new issue call). Needs neither the
+    gate nor well-formedness. -/
+theorem supply_le_max (s0 s : State) (hs : SupplyLeMax s0) (hcalls : CallsOk s0) (hr : Reach s0 s)
+    (t : Tok) (i : TokInfo) (hi : getTok s.toks t = some i) : i.supply ≤ i.max :=
+  (hr.supplyLeMax hs hcalls).1 t i hi
+
+/-! ## T4 — only the token contract changes the supply -/
+
+/-- T4: every accepted step other than a status-1 receive of the token contract leaves the token storage — hence every
+    recorded supply — unchanged, and (above the enforcement height, fresh hashes) leaves Σ balances + Σ in flight
+    unchanged for every token. -/
+theorem only_token_contract_changes_supply (s s' : State) (e : Ev) (hok : step s e = .ok s')
+    (hne : ∀ h ds, e ≠ .crecv tokenContract h 1 ds) :
+    s'.toks = s.toks ∧ (∀ t, supplyOf s' t = supplyOf s t) ∧
+    (s.gate = true → WF s → Fresh s e → ∀ t, sumBal s' t + inflightSum s' t = sumBal s t + inflightSum s t) := by
+  have ht := step_toks hok hne
+  refine ⟨ht, fun t => by simp only [supplyOf, ht], ?_⟩
+  intro hg hw hf t
+  exact step_total hg hw hf hok hne t
+
+/-- T4′: a failed embedded call (status 2) emits exactly the refund of the received send (one descendant of the full
+    amount back to the sender, or nothing when the amount is 0) — for every contract, the token contract included —,
+    leaves token storage alone and is neutral on Σ balances + Σ in flight of every token. -/
+theorem refund_neutral (s s' : State) (c : Addr) (h : Hash) (ds : List Desc)
+    (hok : crecv s c h 2 ds = .ok s') :
+    ∃ snd, checkFrom s c h = .ok snd ∧ descShape ds = refundOf snd ∧ s'.toks = s.toks ∧
+      (s.gate = true → WF s → Fresh s (.crecv c h 2 ds) →
+        ∀ t, sumBal s' t + inflightSum s' t = sumBal s t + inflightSum s t) := by
+  have hne : ∀ h' ds', Ev.crecv c h 2 ds ≠ .crecv tokenContract h' 1 ds' := by
+    intro h' ds' he; cases he
+  have hstep : step s (.crecv c h 2 ds) = .ok s' := hok
+  cases crecv_cases hok with
+  | plain nxt snd _ _ hchk _ href _ _ hds =>
+    exact ⟨snd, hchk, href rfl, (applyDescs_frame hds).2.1,
+      fun hg hw hf t => step_total hg hw hf hstep hne t⟩
+  | token nxt snd out _ _ _ _ hst _ _ _ _ => cases hst
+
+/-! ## the gate is necessary (finding F8) -/
+
 /-- scenario for the negative witness: U1(=16) sends 7 ZNN to U2(=17); U3(=18) and then U2 receive it -/
 def doubleReceive (gate : Bool) : Except Err Nat := do
   let s0 : State := { State.init gate with bal := [((16, znnTok), 10)], toks := [(znnTok, ⟨10, 100, true, true, 1⟩)] }
@@ -42,5 +142,36 @@ theorem pre_gate_double_receive : doubleReceive false = .ok 17 := by rfl
 
 /-- with the gate on, the third-party receive is refused -/
 theorem post_gate_third_party_refused : doubleReceive true = .error Err.receiverMismatch := by rfl
+
+/-! ## the hypotheses are satisfiable: a concrete reachable state -/
+
+/-- the demo history (issue, receive, transfer, mint, failed call + refund, burn, queued calls) is accepted,
+    admissible at every step, and ends in `demoFinal` -/
+example : runAdm (State.init true) demoEvents = some demoFinal := by rfl
+
+example : Reach (State.init true) demoFinal := reach_of_runAdm demoEvents _ _ (by rfl)
+
+/-- … where token 5 has supply 60 = 36 in balances + 24 in flight, below its max 80 -/
+example : supplyOf demoFinal 5 = 60 ∧ sumBal demoFinal 5 = 36 ∧ inflightSum demoFinal 5 = 24 := by decide
+
+example : WF demoFinal := by decide
+
+example : Conserved demoFinal := conservation_from_empty _ (reach_of_runAdm demoEvents _ _ (by rfl))
+
+/-- a state with a genesis-like allocation that satisfies the hypotheses of `conservation` directly -/
+example : let s0 : State := { State.init true with bal := [((16, znnTok), 10)], toks := [(znnTok, ⟨10, 100, true, true, 1⟩)] }
+    s0.gate = true ∧ WF s0 ∧ Conserved s0 ∧ SupplyLeMax s0 ∧ CallsOk s0 := by
+  refine ⟨rfl, by decide, ?_, ?_, ?_⟩
+  · intro t _
+    by_cases h : t = znnTok
+    · subst h; decide
+    · have h' : ¬ znnTok = t := fun e => h e.symm
+      simp [supplyOf, supplyOfL, getTok, sumBal, sumBalL, inflightSum, State.unreceived, State.init, h']
+  · intro t i hi
+    simp only [getTok] at hi
+    split at hi
+    · cases hi; decide
+    · cases hi
+  · intro x hx; simp [State.init] at hx
 
 end ZV.C01
